@@ -14,7 +14,7 @@
    What StreamSpec.v offers as the in-memory reader is an ACCEPTOR (mem_step K data m op r = Some m'
    iff answering r is correct) because ReadByChunks may cut as it likes.  The function form
    [memr_step] below (ReadByChunks hands out the whole request) is added here; MpStreamProofs.v
-   shows that mem_step accepts each of its answers (memr_accepted), and every theorem about the
+   shows that mem_step accepts each of its answers (memr_sim), and every theorem about the
    programs is proved for ALL answers mem_step accepts, not only for memr_step's.
 
    Mirrored as it is: where the code peeks and then consumes (PeekByte + GotoNextByte) or consumes at
@@ -27,11 +27,12 @@
    mBuffer with the ReadByChunks loop.
 
    Not modelled: the text and the Offset field of the exceptions (the GetPosition() calls made only
-   to fill that field are left out: after a refused SetPosition the reference reader promises
-   nothing about it), mBuffer.reserve(remainingSize) (an allocation, assumed to succeed; see the
-   report: a 5-byte input asks for 4 GiB), size_t wrap-around of GetPosition() + size (positions are
-   below 2^63 and sizes below 2^33).  Loops get fuel: one unit per nested value / per chunk; any
-   fuel above the number of remaining bytes is enough (MpStreamProofs.v).
+   to fill that field are left out; the position at which a call throws is the reader's position
+   when the program returns QErr: MpStreamProofs.wp_skip_impl_at states it for SkipValueImpl and
+   compares it with the string reader's), mBuffer.reserve(remainingSize) (an allocation, assumed to
+   succeed; a 5-byte input asks for 4 GiB: see the report), size_t wrap-around of GetPosition() + size
+   (positions are below 2^63 and sizes below 2^33).  Loops get fuel: one unit per nested value / per
+   chunk; any fuel above the number of remaining bytes is enough (MpStreamProofs.v).
    No proofs in this file. *)
 From BS Require Import Base MpSpec MpModel StreamIStream StreamSpec StreamModel.
 Local Open Scope N_scope.
